@@ -200,7 +200,10 @@ def run(ctx):
     for f in failures:
         ctx.report("build:%s:%s" % (f["profile"], f["tests"][0] if f["tests"] else f["pkg"]),
                    "generated package %s did not build/run (%s): %s" % (f["pkg"], f["profile"], f["detail"][:400]), f)
+    write_ndjson(os.path.join(ctx.work, "records.ndjson"), all_recs)
+    log("[C27] %d records executed in %.0fs; validating" % (len(all_recs), time.time() - t0))
     validated, rej = validate(ctx, all_recs)
+    log("[C27] validated %d, %d rejections, %.0fs" % (validated, len(rej), time.time() - t0))
     for rec, k, expected in rej:
         what = ("%s: operation %d of the history: observation differs from StdModels" % (rec["id"], k)) if rec["rt"] == "coll" else \
                ("%s (%s): result differs from StdModels.NumExpect" % (rec["id"], rec["profile"]))
